@@ -381,6 +381,9 @@ type netModel struct {
 	tls   map[netip.AddrPort]*Node
 	plain map[netip.AddrPort]*Node
 	h3    map[netip.AddrPort]*Node
+	// static: the config list the client brings along for every dial (nil: the
+	// list comes from the record that produced the target)
+	static []byte
 }
 
 func newNetModel(nodes []Node) *netModel {
@@ -459,12 +462,16 @@ func (n *netModel) goodTCP(t mTarget, host string) bool {
 	if nd == nil || !certCovers(nd, host) {
 		return false
 	}
-	if len(t.ECH) > 0 {
+	ech := t.ECH
+	if n.static != nil {
+		ech = n.static
+	}
+	if len(ech) > 0 {
 		if nd.ECH == nil {
 			return false
 		}
 		_, _, list := echMaterial(nd.ECH)
-		if !slices.Equal(list, t.ECH) {
+		if !slices.Equal(list, ech) {
 			return false
 		}
 	}
